@@ -662,7 +662,7 @@ def e2e_verbatim(ck, rng, projects, modes_full):
     cases, impls = [], []
     st = {"projects": 0, "runs": 0, "range_runs": 0, "pure_component_sizes": [], "mixed_components": 0, "bound_on_group_similarity": 0,
           "bound_on_pair_similarity": 0, "groups_dropped_by_range": 0, "pairs_dropped_by_range": 0, "contract_decided": 0,
-          "known_range_filter_cases": 0}
+          "known_range_filter_cases": 0, "range_filter_violations": 0}
 
     def one(job):
         d, mode, thr, k, extra = job
@@ -767,6 +767,9 @@ def e2e_verbatim(ck, rng, projects, modes_full):
             for what, want, got, full in (("clone pair", wantP, P, P0), ("clone group", wantG, G, G0)):
                 if want != got:
                     filt_ok = False
+                    st["range_filter_violations"] += 1
+                    if st["range_filter_violations"] > 4:
+                        continue
                     miss = [show(e) + [s] for e, s in want.items() if e not in got]
                     more = [show(e) + [s] for e, s in got.items() if e not in want]
                     on_bound = [x for x in miss if x[-1] in (lo, hi)]
@@ -787,8 +790,10 @@ def e2e_verbatim(ck, rng, projects, modes_full):
                                   "ord": collect(pairs), "dir": d, "locations": order, "config": cfg})
                     impls.append(groups)
                 continue
-            if not filt_ok:
-                continue        # already reported above with the precise reason
+            if not filt_ok or not ok0:
+                # reported above with the precise reason, resp. the run without a range already breaks the contract (it is among the
+                # returned cases and reported from there): what the range makes of such a report is not a separate failing input
+                continue
             tags = {"source": "cli", "report_filter": "similarity_range", "range_is_default": (lo, hi) == (0.0, 1.0),
                     "inclusive_range_filter_of_a_report_that_meets_the_contract": bool(ok0)}
             e = ck.match_known(tags)
@@ -1134,10 +1139,12 @@ def main(tier):
     if ck.go_ok:
         e2e_cases, e2e_impl = e2e(ck, rng, 6 if thorough else 1)
     verb_stats = {}
+    verb_time = time.time()
     if ck.go_ok:
         vcases, vimpl, verb_stats = e2e_verbatim(ck, rng, 3 if thorough else 1, thorough)
         e2e_cases += vcases
         e2e_impl += vimpl
+    verb_time = time.time() - verb_time
     base_e2e = len(cases)
     cases += e2e_cases
     impl_groups += e2e_impl
@@ -1145,7 +1152,7 @@ def main(tier):
     if ck.go_ok:
         lsh_capped = e2e_lsh_capped(ck, rng, MODES if thorough else [rng.choice(MODES)])
 
-    lib.log("C10: e2e %.1fs" % (time.time() - tp)); tp = time.time()
+    lib.log("C10: e2e %.1fs (verbatim/range stage %.1fs)" % (time.time() - tp, verb_time)); tp = time.time()
     # detector level: returned groups against the pairs reported by the same call
     det_stats = {}
     if ck.go_ok:
@@ -1279,7 +1286,17 @@ def main(tier):
                 "bridges, chains, hubs); random graphs on 2..40 fragments with duplicate pairs; CLI runs per grouping_mode, each also with "
                 "lsh_enabled = \"true\", and " + ("one run per mode" if thorough else "one run (seeded mode)") + " of a 146..150-function project through "
                 "the LSH pipeline that has more clone pairs than the detector's cap of 10000 (groups against the pairs of the same report; Python "
-                "statement of the contract only). DETECTOR LEVEL (hook op clone_groups: real fragment extraction, DetectClones / DetectClonesWithLSH, "
+                "statement of the contract only). VERBATIM COPIES AND REPORT RANGE (CLI): " + ("3 projects" if thorough else "1 project") + " with three isolated families of "
+                "2, 3 and 4 verbatim copies (three unrelated texts out of 6, the copies spread over 3..5 files; every pair inside such a component is "
+                "exactly 1.0 and nothing else is linked to it at the threshold; the check fails if one of the sizes or a mixed component is missing) "
+                "next to near copies that form mixed components, under every grouping_mode with the default range [0, 1] (full contract against the "
+                "reported pairs, Python + proved checker; connected = exactly the components of the reported pair graph), then for every mode "
+                "min_similarity resp. max_similarity exactly at / 2^-40 below / 2^-40 above 1.0, an observed group similarity < 1 (of a group with >= 3 "
+                "members if there is one) and an observed pair similarity" + (" (thorough: up to 3 each)" if thorough else "") + ": (a) the reported pairs "
+                "and the reported groups are exactly the pairs / groups of the default-range run of the same mode whose similarity s satisfies "
+                "min <= s <= max (both bounds inclusive, the same for pairs and groups), (b) the contract of the mode on the REPORTED pairs; a failure "
+                "of (b) where (a) holds and the default-range run meets the contract is the recorded finding C10-F29 (range filter after grouping), "
+                "anything else a violation. DETECTOR LEVEL (hook op clone_groups: real fragment extraction, DetectClones / DetectClonesWithLSH, "
                 "pairs and groups of the SAME call): families of 12..16 (thorough: up to 40) near-identical small functions plus 2..3 weaker "
                 "unrelated ones, for each detection path {standard double loop, batches of 5, LSH} x {connected, complete_linkage, k_core, star} x "
                 "MaxClonePairs in {no cap or exactly the number of pairs, pairs-1, a seeded value <= pairs/3, 1}" +
@@ -1290,7 +1307,7 @@ def main(tier):
                 "pair list (the check fails if a path has none). "
                 "distinct_nontrivial = cases where the implementation returned at least one group",
         "input_distribution": dict(lattice=n_lattice, lattice_scopes=[[b, str(t), n, start, stride, cnt] for b, t, e, n, start, stride, cnt in scopes], lattice_impl_equals_model=lattice_agree, structured=n_struct, random=n_rand,
-                                   e2e_cli=len(e2e_cases), e2e_cli_lsh=sum(1 for c in e2e_cases if c.get("lsh")), e2e_cli_lsh_capped=lsh_capped,
+                                   e2e_cli=len(e2e_cases), e2e_cli_lsh=sum(1 for c in e2e_cases if c.get("lsh")), e2e_cli_lsh_capped=lsh_capped, e2e_cli_verbatim_and_range=verb_stats,
                                    detector=det_stats, by_mode=by_mode),
         "contract_violations": n_viol,
         "model_mismatches": n_tie,
